@@ -6,6 +6,18 @@ VERIF = os.path.dirname(HERE)
 ALL = ["C%02d" % i for i in range(1, 19)]
 
 CLAIMS = {
+    "C09": dict(
+        text=("Rocq proof over the model of _group_notes_by/_order_notes_by/_select and the keyfuncs: for ANY grouping "
+              "dimensions and ordering keys every selected note occurs exactly once under the leaves (permutation), sibling "
+              "group labels are strictly increasing in the (proved total) string order and every note sits under the label "
+              "equal to its own key, each leaf is a sorted permutation w.r.t. the joined ORDER BY key, count(x) is the length "
+              "of selecting x, tag/key/value/link selections are duplicate-free with the same values; `O none` = path then "
+              "line is REFUTED (known finding). Tied to the code by comparing swog.execute byte-for-byte with the model on "
+              "the notes the real WHERE stage returned, over generated indexes and queries."),
+        note=("Trusted: Coq kernel; extraction; harness. The WHERE stage is C03's; note extraction from the session and "
+              "strftime are harness/CPython. Known finding: ORDER BY none compares 'path::line' as text."),
+        technique="Rocq proof (permutation/sortedness of grouping tree, total string order) + byte-exact correspondence",
+        design="§5 C09"),
     "C01": dict(
         text=("Rocq proof over a handler-by-handler model of ZorgFileCompiler that runs on ANY parse tree: only todo_prefix/"
               "priority nodes write kind and priority, ZID-/date-shaped identifiers after the identity position change "
